@@ -221,58 +221,99 @@ def margin_label(ctx, worst):
               else "diff < tol")
 
 
-def _perturb(x, k=[0]):
-    """Every float entry multiplied by 1 +- 1e-14 (alternating, deterministic)."""
+def _perturb(x, flip):
+    """Every entry of every float array moved by +-1e-14 * max|array| (alternating signs, deterministic; zeros
+    move too, so exact structure such as planar chains is broken the way rounding breaks it); floats by 1e-14
+    relative."""
     if isinstance(x, np.ndarray):
-        if x.dtype.kind != "f":
+        if x.dtype.kind != "f" or x.size == 0:
             return x.copy()
-        sg = np.where(np.arange(x.size) % 2 == 0, 1.0, -1.0).reshape(x.shape)
-        return np.ascontiguousarray(x * (1.0 + 1e-14 * sg))
+        sg = np.where((np.arange(x.size) + flip) % 2 == 0, 1.0, -1.0).reshape(x.shape)
+        return np.ascontiguousarray(x + 1e-14 * float(np.abs(x).max()) * sg)
     if isinstance(x, float):
-        return x * (1.0 + 1e-14)
+        return x * (1.0 + (1e-14 if flip == 0 else -1e-14))
     if _is_seq(x):
-        return type(x)(_perturb(e) for e in x)
+        return type(x)(_perturb(e, flip) for e in x)
     return x
 
 
-def ref_sensitivity(name, args, r0, perturb_idx):
-    """max over returned arrays of |ref(args*(1+-1e-14)) - ref(args)| / max(1,|ref|): how well the reference
-    itself is determined by its arguments.  Only the arguments listed in perturb_idx are perturbed."""
-    a2 = list(copy.deepcopy(args))
-    for i in perturb_idx:
-        a2[i] = _perturb(a2[i])
-    ok, r1 = call_ref(name, tuple(a2))
-    if not ok:
-        return math.inf
-
-    def walk(a, b):
-        if _is_seq(a):
-            if not _is_seq(b) or len(a) != len(b):
-                return math.inf
-            return max([0.0] + [walk(x, y) for x, y in zip(a, b)])
-        if _is_bool(a):
-            return 0.0 if bool(a) == bool(b) else math.inf
-        a = np.asarray(a, dtype=float)
-        b = np.asarray(b, dtype=float)
-        if a.shape != b.shape:
+def _rel_change(a, b):
+    if _is_seq(a):
+        if not _is_seq(b) or len(a) != len(b):
             return math.inf
-        if a.size == 0:
-            return 0.0
-        return float(np.abs(a - b).max()) / max(1.0, float(np.abs(a).max()))
-    return walk(r0, r1)
+        return max([0.0] + [_rel_change(x, y) for x, y in zip(a, b)])
+    if _is_bool(a):
+        return 0.0 if bool(a) == bool(b) else math.inf
+    a = np.asarray(a, dtype=float)
+    b = np.asarray(b, dtype=float)
+    if a.shape != b.shape:
+        return math.inf
+    if a.size == 0:
+        return 0.0
+    return float(np.abs(a - b).max()) / max(1.0, float(np.abs(a).max()))
 
 
-def differential(name, args, ctx, rtol=TIGHT, straddle=False, cond_idx=None):
-    """Reference first (it defines the domain), then the port through sut(); compare."""
+def ref_sensitivity(name, args, r0, perturb_idx):
+    """How well the REFERENCE result is determined by its arguments: the largest relative change of any
+    returned array under two 1e-14 perturbations (opposite sign patterns) of the arguments listed in
+    perturb_idx.  inf if the perturbed reference leaves its domain or changes shape/branch."""
+    worst = 0.0
+    for flip in (0, 1):
+        a2 = list(copy.deepcopy(args))
+        for i in perturb_idx:
+            a2[i] = _perturb(a2[i], flip)
+        ok, r1 = call_ref(name, tuple(a2))
+        if not ok:
+            return math.inf
+        worst = max(worst, _rel_change(r0, r1))
+    return worst
+
+
+def _other_branch_agrees(name, args, p, rtol, straddle):
+    """The NearZero cut-off is a discontinuity: for an angle within rounding of 1e-6 the two libraries' norm
+    routines may land on different sides of it.  The port is then right iff it equals the reference evaluated
+    with the straddling angles moved clearly to one side (factor 1 +- 1e-11, which changes a continuous result
+    by 1e-11 relative, far below the tolerance).  True if some assignment of sides reproduces the port's
+    result, False if none does, None if there are more than 4 such angles (16 assignments)."""
+    import itertools
+    pos, mask, kind = straddle
+    mask = np.asarray(mask, dtype=bool)
+    groups = [np.nonzero(mask)] if kind == "whole" else [tuple(np.array([j]) for j in ij)
+                                                         for ij in np.argwhere(mask)]
+    if len(groups) > 4:
+        return None
+    for signs in itertools.product((1.0, -1.0), repeat=len(groups)):
+        a2 = list(copy.deepcopy(args))
+        arr = np.array(a2[pos], dtype=float)
+        for g, sg in zip(groups, signs):
+            arr[g] = arr[g] * (1.0 + sg * 1e-11)
+        a2[pos] = np.ascontiguousarray(arr)
+        ok, r2 = call_ref(name, tuple(a2))
+        if ok and mismatch(p, r2, rtol, name) is None:
+            return True
+    return False
+
+
+def differential(name, args, ctx, rtol=TIGHT, straddle=None, cond_idx=None):
+    """Reference first (it defines the domain), then the port through sut(); compare.
+    straddle = (position of the argument holding rotation angles, boolean mask of its entries whose angle is
+    within 1e-12 relative of the 1e-6 cut-off, "each" entry its own angle | the "whole" mask one angle) or None."""
     ok, r = call_ref(name, args)
     if not ok:
         ctx.skip(r)
     p = call_port(name, args)          # LibError (a Violation) if the port raises where the reference returned
-    if straddle:
-        ctx.label("cutoff-straddle")
-        rtol = max(rtol, LOOSE)
     worst = [0.0]
     m = mismatch(p, r, rtol, name, worst)
+    if straddle is not None and np.any(straddle[1]):
+        if m:
+            res = _other_branch_agrees(name, args, p, rtol, straddle)
+            if res is None:
+                ctx.skip("more than 4 rotation angles sit on the 1e-6 cut-off")
+            if res:
+                ctx.label("cutoff-straddle: other branch")
+                return p, r
+        else:
+            ctx.label("cutoff-straddle: same branch")
     if m:
         if cond_idx is not None:
             s = ref_sensitivity(name, args, r, cond_idx)
@@ -285,64 +326,208 @@ def differential(name, args, ctx, rtol=TIGHT, straddle=False, cond_idx=None):
 
 
 # ----------------------------------------------------------------------------------------------
-# strategies
+# strategies.  Every strategy object is built once at import (Hypothesis re-validates strategies that are
+# created inside a composite on every draw, which made a 7-joint dynamic model cost 40 ms to generate);
+# values are assembled from tuples/lists by plain functions.
 # ----------------------------------------------------------------------------------------------
 
-def straddles(*angles):
-    return any(abs(abs(a) - CUTOFF) <= CUTOFF * 1e-9 for a in angles)
+def on_cutoff(a):
+    """Rotation angle within 1e-12 relative of the library's 1e-6 NearZero cut-off (norm routines differ by
+    ~1e-16 relative, so outside this zone both libraries take the same branch)."""
+    return abs(abs(a) - CUTOFF) <= CUTOFF * 1e-12
+
+
+def joint_straddle(pos, S, q):
+    """straddle descriptor for a joint vector (or N x n matrix of joint values) at argument position pos."""
+    wn = np.linalg.norm(S[:3], axis=0)
+    q = np.asarray(q, dtype=float)
+    ang = np.abs(q) * wn
+    return (pos, np.abs(ang - CUTOFF) <= CUTOFF * 1e-12, "each")
+
+
+def whole_straddle(size, th):
+    """straddle descriptor for an so(3) (size 3) or se(3) (size 4) matrix argument of rotation angle th."""
+    mask = np.zeros((size, size), dtype=bool)
+    mask[:3, :3] = on_cutoff(th)
+    return (0, mask, "whole")
 
 
 def carr(a):
     return np.ascontiguousarray(np.asarray(a, dtype=float))
 
 
-@st.composite
-def nonzero_vec3(draw, maxnorm=1e3):
-    kind = draw(st.sampled_from(["generic", "generic", "generic", "box", "zero"]))
-    if kind == "zero":
-        return np.zeros(3)
-    if kind == "box":
-        return np.array([draw(G.floats(-maxnorm, maxnorm)) for _ in range(3)])
-    return draw(G.unit_vectors()) * draw(G.log_uniform(1e-6, maxnorm))
+_F11 = G.floats(-1.0, 1.0)
+_F22 = G.floats(-2.0, 2.0)
+_FPI = G.floats(-PI, PI)
+_AXES = [(1, 0, 0), (-1, 0, 0), (0, 1, 0), (0, -1, 0), (0, 0, 1), (0, 0, -1)]
 
 
-def joint_value():
-    return st.one_of(
-        G.floats(-PI, PI),
-        G.floats(-PI, PI),
-        G.floats(-2 * PI, 2 * PI),
-        st.sampled_from([0.0, 1e-7, 1e-6, -1e-6, PI / 2, -PI / 2, PI, 2.0, -2.5, 1.0]),
-    )
+def _unit_from(t):
+    kind, k, a, z = t
+    if kind == "axis":
+        return np.array(_AXES[k], dtype=float)
+    if kind == "plane":
+        v = [math.cos(a), math.sin(a)]
+        v.insert(k % 3, 0.0)
+        return np.array(v, dtype=float)
+    r = math.sqrt(max(0.0, 1 - z * z))
+    v = np.array([r * math.cos(a), r * math.sin(a), z], dtype=float)
+    nv = np.linalg.norm(v)
+    return v / nv if nv > 0 else np.array([0.0, 0.0, 1.0])
+
+
+UNIT = st.tuples(st.sampled_from(["axis", "plane", "generic", "generic"]), st.integers(0, 5), _FPI, _F11).map(
+    _unit_from)
+
+
+def _cube_rotations():
+    import itertools
+    out = []
+    for perm in itertools.permutations(range(3)):
+        for signs in itertools.product((1.0, -1.0), repeat=3):
+            R = np.zeros((3, 3))
+            for i in range(3):
+                R[i, perm[i]] = signs[i]
+            if np.linalg.det(R) > 0:
+                out.append(R)
+    return out
+
+
+_CUBE = _cube_rotations()          # the 24 rotations with entries in {0, +-1} (as in the docstring examples)
+_ANGLES = G.angles_full()
+
+
+def _rot_from(t):
+    kind, u, ang, q, k = t
+    if kind == "identity":
+        return np.eye(3)
+    if kind == "halfturn":
+        return 2 * np.outer(u, u) - np.eye(3)
+    if kind == "cube":
+        return _CUBE[k].copy()
+    if kind == "quat":
+        q = np.array(q)
+        if np.linalg.norm(q) < 1e-3:
+            q = np.array([0.0, 0.0, 0.0, 1.0])
+        return O.quat_to_R(q / np.linalg.norm(q))
+    return O.exp3(ang * u)
+
+
+ROT = st.tuples(st.sampled_from(["identity", "halfturn", "cube", "rotvec", "rotvec", "quat", "quat"]), UNIT, _ANGLES,
+                st.lists(_F11, min_size=4, max_size=4), st.integers(0, 23)).map(_rot_from)
+
+
+def _pos_from(scale):
+    def f(t):
+        kind, v, k = t
+        if kind == "zero":
+            return np.zeros(3)
+        if kind == "axis":
+            p = np.zeros(3)
+            p[k] = v[0] * scale
+            return p
+        return np.array(v) * scale
+    return f
+
+
+def pos_strategy(scale):
+    return st.tuples(st.sampled_from(["zero", "axis", "box", "box"]), st.lists(_F11, min_size=3, max_size=3),
+                     st.integers(0, 2)).map(_pos_from(scale))
+
+
+def frame_strategy(scale):
+    return st.tuples(ROT, pos_strategy(scale)).map(lambda t: carr(O.rp(t[0], t[1])))
+
+
+FRAME2 = frame_strategy(2.0)       # link frames
+FRAME5 = frame_strategy(5.0)       # home / goal configurations
+FRAME10 = frame_strategy(10.0)
+
+
+def _screw_from(t):
+    k, u, q, h = t
+    if k == 0:
+        return np.concatenate([np.zeros(3), u])
+    q = np.array(q)
+    return np.concatenate([u, np.cross(q, u) + h * u])
+
+
+SCREW = st.tuples(st.integers(0, 5), UNIT, st.lists(_F22, min_size=3, max_size=3),
+                  st.sampled_from([0.0, 0.0, 0.0, 0.1, -0.5])).map(_screw_from)
+
+
+def _inertia_from(t):
+    m, a, Rp, displaced, Rc, c = t
+    Ic = Rp @ np.diag(a) @ Rp.T
+    G0 = np.zeros((6, 6))
+    G0[:3, :3] = (Ic + Ic.T) / 2
+    G0[3:, 3:] = m * np.eye(3)
+    if not displaced:
+        return G0
+    A = O.Ad(O.rp(Rc, np.array(c)))
+    Gm = A.T @ G0 @ A
+    return (Gm + Gm.T) / 2
+
+
+# G = Ad(Tc)^T diag(Ic, m 1) Ad(Tc): SPD Ic (eigenvalues 0.01..5), mass 0.1..50, COM offset <= 0.5 per axis
+INERTIA = st.tuples(G.floats(0.1, 50.0), st.lists(G.floats(0.01, 5.0), min_size=3, max_size=3), ROT, st.booleans(),
+                    ROT, st.lists(G.floats(-0.5, 0.5), min_size=3, max_size=3)).map(_inertia_from)
+
+_JOINT_COMMON = st.sampled_from([0.0, 0.0, PI / 2, -PI / 2, PI, -PI, 2.0, -2.5, 1.0, 3.0])
+_JOINT_BAND = st.sampled_from([CUTOFF, -CUTOFF, math.nextafter(CUTOFF, 0), math.nextafter(CUTOFF, 1), 1e-7, -3e-7,
+                               1.5e-6])
+# ~80 % generic in [-pi,pi] or [-2pi,2pi], 12 % a common special value, 4 % on / inside the NearZero cut-off.
+# The selector avoids 0 and the end points, which Hypothesis over-samples.
+JOINT = st.tuples(st.integers(0, 49), _FPI, G.floats(-2 * PI, 2 * PI), _JOINT_COMMON, _JOINT_BAND).map(
+    lambda t: t[4] if t[0] in (23, 24) else t[3] if 10 <= t[0] <= 15 else t[2] if 30 <= t[0] <= 37 else t[1])
+
+
+def fvec(n, elem):
+    return st.lists(elem, min_size=n, max_size=n).map(lambda l: np.array(l, dtype=float))
+
+
+def fmat(N, n, elem):
+    return st.lists(elem, min_size=N * n, max_size=N * n).map(lambda l: carr(np.array(l, dtype=float).reshape(N, n)))
 
 
 def joint_vec(n):
-    return st.lists(joint_value(), min_size=n, max_size=n).map(lambda l: np.array(l, dtype=float))
+    return fvec(n, JOINT)
 
 
-def rate_vec(n, mag=10.0):
-    return G.vec(n, -mag, mag)
+_F10 = G.floats(-10.0, 10.0)
+_F20 = G.floats(-20.0, 20.0)
+_F3 = G.floats(-3.0, 3.0)
+
+GRAVITY = st.one_of(
+    st.sampled_from([(0.0, 0.0, -9.81), (0.0, 0.0, -9.8), (0.0, 0.0, 0.0), (0.0, -9.81, 0.0)]).map(
+        lambda t: np.array(t, dtype=float)),
+    fvec(3, G.floats(-12.0, 12.0)),
+)
+FTIP = st.one_of(fvec(6, _F20), fvec(6, _F20), st.just(np.zeros(6)))
+GAIN = st.one_of(G.floats(0.0, 30.0), st.sampled_from([0.0, 1.3, 20.0]))
+DT = st.one_of(G.floats(1e-3, 2e-2), st.sampled_from([0.01, 0.001]))
+
+NONZERO_VEC3 = st.tuples(st.sampled_from(["generic", "box", "generic", "generic", "box", "generic", "generic", "box",
+                                          "generic", "zero"]), UNIT,
+                         G.log_uniform(1e-6, 1e3), st.lists(G.floats(-1e3, 1e3), min_size=3, max_size=3)).map(
+    lambda t: np.zeros(3) if t[0] == "zero" else np.array(t[3]) if t[0] == "box" else t[1] * t[2])
 
 
-def gravity():
-    return st.one_of(
-        st.sampled_from([(0.0, 0.0, -9.81), (0.0, 0.0, -9.8), (0.0, 0.0, 0.0), (0.0, -9.81, 0.0)]).map(
-            lambda t: np.array(t, dtype=float)),
-        G.vec(3, -12.0, 12.0),
-    )
+def chain_strategy(n):
+    return st.lists(SCREW, min_size=n, max_size=n).map(lambda l: carr(np.stack(l, axis=1)))
 
 
-def link_frame():
-    return G.se3s(maxnorm=2.0)
-
-
-@st.composite
-def models(draw, nmin=1, nmax=7):
+def model_strategy(n):
     """Open chain with dynamics: Slist 6xn, Mlist (n+1)x4x4, Glist nx6x6 (ndarrays, as in the docstrings)."""
-    n = draw(st.integers(nmin, nmax))
-    S = draw(G.chains(n, n))
-    Mlist = np.stack([draw(link_frame()) for _ in range(n + 1)])
-    Glist = np.stack([draw(G.spd_spatial_inertia()) for _ in range(n)])
-    return {"Slist": carr(S), "Mlist": carr(Mlist), "Glist": carr(Glist)}
+    return st.tuples(chain_strategy(n), st.lists(FRAME2, min_size=n + 1, max_size=n + 1),
+                     st.lists(INERTIA, min_size=n, max_size=n)).map(
+        lambda t: {"Slist": t[0], "Mlist": carr(np.stack(t[1])), "Glist": carr(np.stack(t[2]))})
+
+
+def per_n(lo, hi, build):
+    """integers(lo,hi).flatmap(build) with the per-n strategies built (and validated) only once."""
+    table = {n: build(n) for n in range(lo, hi + 1)}
+    return st.integers(lo, hi).flatmap(table.__getitem__)
 
 
 def chain_labels(ctx, S, q=None):
@@ -362,71 +547,70 @@ def joint_angles(S, q):
     return [abs(float(q[i])) * float(np.linalg.norm(S[:3, i])) for i in range(len(q))]
 
 
-@st.composite
-def near_so3(draw):
-    R = O.exp3(draw(G.rotvecs()))
-    kind = draw(st.sampled_from(["exact", "tiny", "threshold", "pert", "pert", "det<0", "det<0 pert"]))
-    if kind == "exact" or kind == "det<0":
+def _near_so3_from(t):
+    R, kind, lsc, psc, E, col = t
+    if kind in ("exact", "det<0"):
         A = R.copy()
     else:
-        if kind == "tiny":
-            sc = draw(G.log_uniform(1e-12, 1e-5))
-        elif kind == "threshold":
-            sc = draw(G.log_uniform(1e-4, 1e-2))
-        else:
-            sc = draw(G.floats(0.01, 0.1))
-        E = np.array([draw(G.floats(-1, 1)) for _ in range(9)]).reshape(3, 3)
-        A = R + sc * E
+        sc = {"tiny": 10.0 ** (-12 + 7 * lsc), "threshold": 10.0 ** (-4 + 2 * lsc)}.get(kind, psc)
+        A = R + sc * np.array(E).reshape(3, 3)
     if kind.startswith("det<0"):
-        A[:, draw(st.integers(0, 2))] *= -1.0
+        A[:, col] *= -1.0
     return {"mat": carr(A), "kind": kind}
 
 
-@st.composite
-def near_se3(draw):
-    d = draw(near_so3())
+# matrices within 0.1 (per entry) of SO(3): exact, perturbed by 1e-12..1e-5, by 1e-4..1e-2 (around the 1e-3
+# threshold of TestIf*), by 0.01..0.1; and the same reflected (det<0)
+NEAR_SO3 = st.tuples(ROT, st.sampled_from(["pert", "det<0 pert", "threshold", "det<0", "tiny", "pert", "det<0 pert",
+                                           "exact"]),
+                     G.floats(0.0, 1.0), G.floats(0.01, 0.1), st.lists(_F11, min_size=9, max_size=9),
+                     st.integers(0, 2)).map(_near_so3_from)
+
+
+def _near_se3_from(t):
+    d, p, row, e = t
     T = np.eye(4)
     T[:3, :3] = d["mat"]
-    T[:3, 3] = draw(G.positions(10.0))
-    row = draw(st.sampled_from(["exact", "exact", "tiny", "threshold", "pert"]))
+    T[:3, 3] = p
     if row != "exact":
-        sc = {"tiny": 1e-9, "threshold": 1e-3, "pert": 0.1}[row]
-        T[3] += sc * np.array([draw(G.floats(-1, 1)) for _ in range(4)])
+        T[3] += {"tiny": 1e-9, "threshold": 1e-3, "pert": 0.1}[row] * np.array(e)
     return {"mat": carr(T), "kind": d["kind"] + ("" if row == "exact" else " row:" + row)}
 
 
-def tf_values():
-    return st.one_of(G.log_uniform(1e-2, 1e2), st.sampled_from([1.0, 2.0, 5.0, 0.5]))
+NEAR_SE3 = st.tuples(NEAR_SO3, pos_strategy(10.0), st.sampled_from(["exact", "exact", "tiny", "threshold", "pert"]),
+                     st.lists(_F11, min_size=4, max_size=4)).map(_near_se3_from)
+
+TF = st.one_of(G.log_uniform(1e-2, 1e2), st.sampled_from([1.0, 2.0, 5.0, 0.5]))
+METHOD = st.sampled_from([3, 5])
+NSAMPLES = st.one_of(st.integers(3, 12), st.integers(2, 12))
+RELMAX = PI - 1e-3
 
 
-def methods():
-    return st.sampled_from([3, 5])
-
-
-@st.composite
-def relative_poses(draw, maxang=PI - 1e-3):
-    """Xstart, Xend in SE(3) whose relative rotation angle is at most maxang (built without the library)."""
-    Xs = draw(G.se3s(maxnorm=10.0))
-    kind = draw(st.sampled_from(["generic", "generic", "same", "pure translation", "tiny", "max"]))
-    if kind == "same":
-        w = np.zeros(3)
-    elif kind == "pure translation":
+def _relative_from(t):
+    Xs, kind, u, ang, small, p = t
+    if kind in ("same", "pure translation"):
         w = np.zeros(3)
     elif kind == "tiny":
-        w = draw(G.unit_vectors()) * draw(G.log_uniform(1e-9, 1e-4))
+        w = u * small
     elif kind == "max":
-        w = draw(G.unit_vectors()) * maxang
+        w = u * RELMAX
     else:
-        w = draw(G.unit_vectors()) * draw(G.floats(1e-3, maxang))
-    p = np.zeros(3) if kind == "same" else draw(G.positions(10.0))
-    D = O.rp(O.exp3(w), p)
-    Xe = Xs @ D
-    # re-orthonormalise the product exactly enough (the product of two rotations is a rotation to ~1e-16)
+        w = u * ang
+    if kind == "same":
+        p = np.zeros(3)
+    Xe = Xs @ O.rp(O.exp3(w), p)
     return {"Xstart": carr(Xs), "Xend": carr(Xe), "rel": kind, "relang": float(np.linalg.norm(w))}
 
 
-def cap_sim(n, N, intRes, cap=160):
-    """Bound (N-1)*intRes*n*(n+3) (number of joint-level Newton-Euler passes) by shrinking N, then intRes."""
+# Xstart, Xend in SE(3) whose RELATIVE rotation angle is at most pi-1e-3 (see RULE)
+RELATIVE_POSES = st.tuples(FRAME10, st.sampled_from(["generic", "generic", "generic", "same", "pure translation",
+                                                     "tiny", "max"]),
+                           UNIT, G.floats(1e-3, RELMAX), G.log_uniform(1e-9, 1e-4), pos_strategy(10.0)).map(
+    _relative_from)
+
+
+def cap_sim(n, N, intRes, cap):
+    """Bound (N-1)*intRes*n*(n+3) (number of joint-level Newton-Euler passes) by lowering intRes and N."""
     while (N - 1) * intRes * n * (n + 3) > cap:
         if intRes > 1 and (N <= 3 or intRes >= N - 1):
             intRes -= 1
@@ -465,7 +649,7 @@ def c_NearZero(case, ctx):
 
 def c_Normalize(case, ctx):
     v = case["V"]
-    ctx.nontrivial(np.count_nonzero(v) >= 2)
+    ctx.nontrivial(np.any(v != 0))
     differential("Normalize", (v,), ctx)
 
 
@@ -478,12 +662,12 @@ def c_RotInv(case, ctx):
 
 
 def c_VecToso3(case, ctx):
-    ctx.nontrivial(np.count_nonzero(case["omg"]) >= 2)
+    ctx.nontrivial(np.any(case["omg"] != 0))
     differential("VecToso3", (case["omg"],), ctx)
 
 
 def c_so3ToVec(case, ctx):
-    ctx.nontrivial(np.count_nonzero(case["omg"]) >= 2)
+    ctx.nontrivial(np.any(case["omg"] != 0))
     differential("so3ToVec", (carr(O.hat3(case["omg"])),), ctx)
 
 
@@ -500,7 +684,7 @@ def c_MatrixExp3(case, ctx):
     th = float(np.linalg.norm(w))
     _ang_label(ctx, th)
     ctx.nontrivial(th >= 1e-6)
-    differential("MatrixExp3", (carr(O.hat3(w)),), ctx, straddle=straddles(th))
+    differential("MatrixExp3", (carr(O.hat3(w)),), ctx, straddle=whole_straddle(3, th))
 
 
 def c_MatrixLog3(case, ctx):
@@ -556,15 +740,9 @@ def c_AxisAng6(case, ctx):
     th = float(np.linalg.norm(V[:3]))
     _ang_label(ctx, th)
     ctx.nontrivial(th >= 1e-6 or np.any(V[3:] != 0))
-    ok, r = call_ref("AxisAng6", (V,))
-    if not ok:
-        ctx.skip(r)
-    p = call_port("AxisAng6", (V,))
-    m = mismatch(p, r, TIGHT, "AxisAng6")
-    if m:
-        if straddles(th):
-            ctx.skip("|w| within 1e-9 relative of the 1e-6 cut-off: the normalising branch is not determined")
-        raise Violation(m)
+    mask = np.zeros(6, dtype=bool)
+    mask[:3] = on_cutoff(th)          # |w| on the cut-off: normalised by |w| or by |v|
+    differential("AxisAng6", (V,), ctx, straddle=(0, mask, "whole"))
 
 
 def c_MatrixExp6(case, ctx):
@@ -572,7 +750,7 @@ def c_MatrixExp6(case, ctx):
     th = float(np.linalg.norm(V[:3]))
     _ang_label(ctx, th)
     ctx.nontrivial(th >= 1e-6)
-    differential("MatrixExp6", (carr(O.hat6(V)),), ctx, straddle=straddles(th))
+    differential("MatrixExp6", (carr(O.hat6(V)),), ctx, straddle=whole_straddle(4, th))
 
 
 def c_MatrixLog6(case, ctx):
@@ -613,25 +791,25 @@ def _mat_case(name):
 def c_FKinBody(case, ctx):
     S, q, M = case["Blist"], case["q"], case["M"]
     ctx.nontrivial(chain_labels(ctx, S, q))
-    differential("FKinBody", (M, S, q), ctx, straddle=straddles(*joint_angles(S, q)))
+    differential("FKinBody", (M, S, q), ctx, straddle=joint_straddle(2, S, q))
 
 
 def c_FKinSpace(case, ctx):
     S, q, M = case["Slist"], case["q"], case["M"]
     ctx.nontrivial(chain_labels(ctx, S, q))
-    differential("FKinSpace", (M, S, q), ctx, straddle=straddles(*joint_angles(S, q)))
+    differential("FKinSpace", (M, S, q), ctx, straddle=joint_straddle(2, S, q))
 
 
 def c_JacobianBody(case, ctx):
     S, q = case["Blist"], case["q"]
     ctx.nontrivial(chain_labels(ctx, S, q))
-    differential("JacobianBody", (S, q), ctx, straddle=straddles(*joint_angles(S, q)))
+    differential("JacobianBody", (S, q), ctx, straddle=joint_straddle(1, S, q))
 
 
 def c_JacobianSpace(case, ctx):
     S, q = case["Slist"], case["q"]
     ctx.nontrivial(chain_labels(ctx, S, q))
-    differential("JacobianSpace", (S, q), ctx, straddle=straddles(*joint_angles(S, q)))
+    differential("JacobianSpace", (S, q), ctx, straddle=joint_straddle(1, S, q))
 
 
 def c_ad(case, ctx):
@@ -651,6 +829,16 @@ def _ik_args(case, body):
         T = case["Tfree"]
     q0 = qstar + case["delta"]
     return (S, M, carr(T), carr(q0), float(case["eomg"]), float(case["ev"]))
+
+
+NEAR_PI_SKIP = ("start within 2e-5 rad of a half turn from the goal: the first error twist is a logarithm in the band "
+                "of known finding C01-near-pi-log (port and reference are equally wrong there and round differently)")
+
+
+def _ik_start_near_pi(args, body):
+    S, M, T, q0 = args[:4]
+    T0 = O.poe_body(M, S, q0) if body else O.poe_space(M, S, q0)
+    return PI - O.rot_angle_between(T0[:3, :3], T[:3, :3]) < 2e-5
 
 
 def _ik_shape(name, out, n):
@@ -678,6 +866,8 @@ def _ik_success(name, body):
         S, M, T, q0, eomg, ev = args
         n = S.shape[1]
         _ik_labels(ctx, case)
+        if _ik_start_near_pi(args, body):
+            ctx.skip(NEAR_PI_SKIP)
         ok, r = call_ref(name, args)
         if not ok:
             ctx.skip(r)
@@ -715,6 +905,8 @@ def _ik_same(name, body):
         args = _ik_args(case, body)
         n = args[0].shape[1]
         _ik_labels(ctx, case)
+        if _ik_start_near_pi(args, body):
+            ctx.skip(NEAR_PI_SKIP)
         ok, r = call_ref(name, args)
         if not ok:
             ctx.skip(r)
@@ -729,9 +921,9 @@ def _ik_same(name, body):
         t = 1e-6 * max(1.0, float(np.abs(rth).max()))
         if d > t:
             s = ref_sensitivity(name, args, r, (0, 1, 2, 3))
-            if s > 1e-6:
-                ctx.skip("ill-conditioned: the reference's own solution moves by more than 1e-6 under a 1e-14 "
-                         "relative perturbation of its arguments")
+            if s > 1e-7:
+                ctx.skip("ill-conditioned: the reference's own solution moves by more than 1e-7 under a 1e-14 "
+                         "perturbation of its arguments (Newton steps through a near-singular Jacobian)")
             raise Violation("%s: both converge from the same start but |theta_port - theta_ref| = %.3g > %.3g"
                             % (name, d, t))
     return check
@@ -744,7 +936,7 @@ def _ik_same(name, body):
 def _dyn_common(case, ctx, extra_nt=False):
     S, q = case["model"]["Slist"], case["q"]
     ctx.nontrivial(chain_labels(ctx, S, q) or extra_nt)
-    return case["model"]["Mlist"], case["model"]["Glist"], S, straddles(*joint_angles(S, q))
+    return case["model"]["Mlist"], case["model"]["Glist"], S, joint_straddle(0, S, q)
 
 
 def c_InverseDynamics(case, ctx):
@@ -792,10 +984,9 @@ def c_InverseDynamicsTrajectory(case, ctx):
     ctx.label("N=%d" % N)
     nt = chain_labels(ctx, S, case["thetamat"])
     ctx.nontrivial(nt or N >= 3)
-    angs = [a for row in case["thetamat"] for a in joint_angles(S, row)]
     differential("InverseDynamicsTrajectory",
                  (case["thetamat"], case["dthetamat"], case["ddthetamat"], case["g"], case["Ftipmat"],
-                  md["Mlist"], md["Glist"], S), ctx, straddle=straddles(*angs))
+                  md["Mlist"], md["Glist"], S), ctx, straddle=joint_straddle(0, S, case["thetamat"]))
 
 
 def c_ForwardDynamicsTrajectory(case, ctx):
@@ -808,7 +999,8 @@ def c_ForwardDynamicsTrajectory(case, ctx):
     ctx.nontrivial(nt or N >= 3)
     differential("ForwardDynamicsTrajectory",
                  (case["q"], case["dq"], case["taumat"], case["g"], case["Ftipmat"], md["Mlist"], md["Glist"], S,
-                  case["dt"], case["intRes"]), ctx, rtol=INTEGRATED, cond_idx=(0, 1, 2, 3, 4, 5, 6, 7))
+                  case["dt"], case["intRes"]), ctx, rtol=INTEGRATED, straddle=joint_straddle(0, S, case["q"]),
+                 cond_idx=(0, 1, 2, 3, 4, 5, 6, 7))
 
 
 def c_ComputedTorque(case, ctx):
@@ -819,7 +1011,10 @@ def c_ComputedTorque(case, ctx):
 
 
 def c_SimulateControl(case, ctx):
-    md, mt = case["model"], case["tilde"]
+    md = case["model"]
+    mt = case["tilde"] if case["tilde"] is not None else md      # None: the controller's model is exact
+    gt = case["gtilde"] if case["tilde"] is not None else case["g"]
+    ctx.label("exact model" if case["tilde"] is None else "wrong model")
     S = md["Slist"]
     N = case["thetamatd"].shape[0]
     ctx.label("N=%d" % N)
@@ -828,9 +1023,10 @@ def c_SimulateControl(case, ctx):
     ctx.nontrivial(nt or N >= 3)
     differential("SimulateControl",
                  (case["q"], case["dq"], case["g"], case["Ftipmat"], md["Mlist"], md["Glist"], S,
-                  case["thetamatd"], case["dthetamatd"], case["ddthetamatd"], case["gtilde"],
+                  case["thetamatd"], case["dthetamatd"], case["ddthetamatd"], gt,
                   mt["Mlist"], mt["Glist"], case["Kp"], case["Ki"], case["Kd"], case["dt"], case["intRes"]),
-                 ctx, rtol=INTEGRATED, cond_idx=(0, 1, 2, 3, 4, 5, 6, 7, 8, 9, 10, 11, 12))
+                 ctx, rtol=INTEGRATED, straddle=joint_straddle(0, S, case["q"]),
+                 cond_idx=(0, 1, 2, 3, 4, 5, 6, 7, 8, 9, 10, 11, 12))
 
 
 # ----------------------------------------------------------------------------------------------
@@ -891,213 +1087,226 @@ def s_scalar_z():
                          -math.nextafter(c, 1), 1e-7, 1.0, -5.0, 1e300, 5e-324]))
 
 
-@st.composite
-def s_chain_q(draw, key, with_M):
-    S = draw(G.chains())
-    n = S.shape[1]
-    d = {key: carr(S), "q": draw(joint_vec(n))}
-    if with_M:
-        d["M"] = draw(G.se3s(maxnorm=10.0))
-    return d
+def s_chain_q(key, with_M):
+    def build(n):
+        d = {key: chain_strategy(n), "q": joint_vec(n)}
+        if with_M:
+            d["M"] = FRAME10
+        return st.fixed_dictionaries(d)
+    return per_n(1, 7, build)
 
 
-@st.composite
-def s_ik(draw):
-    S = draw(G.chains())
-    n = S.shape[1]
-    kind = draw(st.sampled_from(["exact", "near", "near", "medium", "medium", "far"]))
-    mag = {"exact": 0.0, "near": 0.02, "medium": 0.5, "far": PI}[kind]
-    delta = np.array([draw(G.floats(-mag, mag)) for _ in range(n)]) if mag else np.zeros(n)
-    goal = draw(st.sampled_from(["reachable", "reachable", "reachable", "free"]))
-    tol = st.one_of(G.log_uniform(1e-6, 1e-1), st.sampled_from([0.01, 0.001, 1e-4]))
-    return {"S": carr(S), "M": draw(G.se3s(maxnorm=5.0)), "qstar": draw(joint_vec(n)), "delta": delta,
-            "goal": goal, "Tfree": draw(G.se3s(maxnorm=5.0)) if goal == "free" else None,
-            "eomg": draw(tol), "ev": draw(tol)}
+_IKTOL = st.one_of(G.log_uniform(1e-6, 1e-1), st.sampled_from([0.01, 0.001, 1e-4]))
 
 
-@st.composite
-def s_dyn(draw, fields, nmax=7):
-    md = draw(models(1, nmax))
-    n = md["Slist"].shape[1]
-    d = {"model": md, "q": draw(joint_vec(n))}
-    for f in fields:
-        if f in ("dq", "ddq", "dqd", "ddqd"):
-            d[f] = draw(rate_vec(n))
-        elif f == "qd":
-            d[f] = draw(joint_vec(n))
-        elif f == "eint":
-            d[f] = draw(G.vec(n, -1.0, 1.0))
-        elif f == "tau":
-            d[f] = draw(G.vec(n, -20.0, 20.0))
-        elif f == "g":
-            d[f] = draw(gravity())
-        elif f == "Ftip":
-            d[f] = draw(st.one_of(G.vec(6, -20.0, 20.0), st.just(np.zeros(6))))
-        elif f == "gains":
-            for k in ("Kp", "Ki", "Kd"):
-                d[k] = draw(st.one_of(G.floats(0.0, 30.0), st.sampled_from([0.0, 1.3, 20.0])))
-        else:
-            raise HarnessError("unknown field " + f)
-    return d
+def _ik_delta(n):
+    def f(t):
+        kind, v = t
+        mag = {"exact": 0.0, "near": 0.02, "medium": 0.5, "far": PI}[kind]
+        return np.array(v, dtype=float) * mag
+    return st.tuples(st.sampled_from(["exact", "near", "near", "medium", "medium", "far"]),
+                     st.lists(_F11, min_size=n, max_size=n)).map(f)
 
 
-def _mat_rows(draw, N, n, elem):
-    return carr(np.array([[draw(elem) for _ in range(n)] for _ in range(N)], dtype=float).reshape(N, n))
+def s_ik():
+    def build(n):
+        return st.fixed_dictionaries({
+            "S": chain_strategy(n), "M": FRAME5, "qstar": joint_vec(n), "delta": _ik_delta(n),
+            "goal": st.sampled_from(["reachable", "reachable", "reachable", "free"]), "Tfree": FRAME5,
+            "eomg": _IKTOL, "ev": _IKTOL})
+    return per_n(1, 7, build)
 
 
-@st.composite
-def s_idtraj(draw):
-    md = draw(models(1, 5))
-    n = md["Slist"].shape[1]
-    N = draw(st.integers(2, 12))
-    while N > 2 and N * n > 30:
-        N -= 1
-    return {"model": md, "g": draw(gravity()),
-            "thetamat": _mat_rows(draw, N, n, joint_value()),
-            "dthetamat": _mat_rows(draw, N, n, G.floats(-10, 10)),
-            "ddthetamat": _mat_rows(draw, N, n, G.floats(-10, 10)),
-            "Ftipmat": _mat_rows(draw, N, 6, G.floats(-20, 20))}
+def s_dyn(fields, nmax=7):
+    def build(n):
+        d = {"model": model_strategy(n), "q": joint_vec(n)}
+        for f in fields:
+            if f in ("dq", "ddq", "dqd", "ddqd"):
+                d[f] = fvec(n, _F10)
+            elif f == "qd":
+                d[f] = joint_vec(n)
+            elif f == "eint":
+                d[f] = fvec(n, _F11)
+            elif f == "tau":
+                d[f] = fvec(n, _F20)
+            elif f == "g":
+                d[f] = GRAVITY
+            elif f == "Ftip":
+                d[f] = FTIP
+            elif f == "gains":
+                d.update({"Kp": GAIN, "Ki": GAIN, "Kd": GAIN})
+            else:
+                raise HarnessError("unknown field " + f)
+        return st.fixed_dictionaries(d)
+    return per_n(1, nmax, build)
 
 
-@st.composite
-def s_fdtraj(draw):
-    md = draw(models(1, 7))
-    n = md["Slist"].shape[1]
-    N, intRes = cap_sim(n, draw(st.integers(2, 12)), draw(st.integers(1, 4)))
-    return {"model": md, "q": draw(joint_vec(n)), "dq": draw(rate_vec(n, 3.0)), "g": draw(gravity()),
-            "taumat": _mat_rows(draw, N, n, G.floats(-10, 10)),
-            "Ftipmat": _mat_rows(draw, N, 6, G.floats(-10, 10)),
-            "dt": draw(st.one_of(G.floats(1e-3, 2e-2), st.sampled_from([0.01, 0.001]))), "intRes": intRes}
+def s_idtraj():
+    def build(n):
+        def rows(N):
+            N = max(2, min(N, 30 // n))
+            return st.fixed_dictionaries({
+                "model": model_strategy(n), "g": GRAVITY, "thetamat": fmat(N, n, JOINT),
+                "dthetamat": fmat(N, n, _F10), "ddthetamat": fmat(N, n, _F10), "Ftipmat": fmat(N, 6, _F20)})
+        table = {N: rows(N) for N in range(2, 13)}
+        return NSAMPLES.flatmap(table.__getitem__)
+    return per_n(1, 7, build)
 
 
-@st.composite
-def s_simctl(draw):
-    md = draw(models(1, 7))
-    n = md["Slist"].shape[1]
-    same = draw(st.booleans())
-    if same:
-        tilde = {"Mlist": md["Mlist"].copy(), "Glist": md["Glist"].copy()}
-    else:
-        tilde = {"Mlist": carr(np.stack([draw(link_frame()) for _ in range(n + 1)])),
-                 "Glist": carr(np.stack([draw(G.spd_spatial_inertia()) for _ in range(n)]))}
-    N, intRes = cap_sim(n, draw(st.integers(2, 12)), draw(st.integers(1, 4)), cap=120)
-    g = draw(gravity())
-    d = {"model": md, "tilde": tilde, "q": draw(joint_vec(n)), "dq": draw(rate_vec(n, 3.0)), "g": g,
-         "gtilde": g.copy() if same else draw(gravity()),
-         "Ftipmat": _mat_rows(draw, N, 6, G.floats(-10, 10)),
-         "thetamatd": _mat_rows(draw, N, n, joint_value()),
-         "dthetamatd": _mat_rows(draw, N, n, G.floats(-3, 3)),
-         "ddthetamatd": _mat_rows(draw, N, n, G.floats(-3, 3)),
-         "dt": draw(st.one_of(G.floats(1e-3, 2e-2), st.sampled_from([0.01, 0.001]))), "intRes": intRes}
-    for k in ("Kp", "Ki", "Kd"):
-        d[k] = draw(st.one_of(G.floats(0.0, 30.0), st.sampled_from([0.0, 1.3, 20.0])))
-    return d
+def _sim_sizes(n, cap):
+    """(N, intRes) pairs allowed for an n-joint chain, N in 2..12, intRes in 1..4, cost-capped."""
+    return sorted({cap_sim(n, N, r, cap) for N in range(2, 13) for r in range(1, 5)})
 
 
-@st.composite
-def s_jointtraj(draw):
-    n = draw(st.integers(1, 8))
-    return {"thetastart": draw(joint_vec(n)), "thetaend": draw(joint_vec(n)), "Tf": draw(tf_values()),
-            "N": draw(st.integers(2, 12)), "method": draw(methods())}
+def s_fdtraj(cap=160):
+    def build(n):
+        def sized(Nr):
+            N, intRes = Nr
+            return st.fixed_dictionaries({
+                "model": model_strategy(n), "q": joint_vec(n), "dq": fvec(n, _F3), "g": GRAVITY,
+                "taumat": fmat(N, n, _F10), "Ftipmat": fmat(N, 6, _F10), "dt": DT, "intRes": st.just(intRes)})
+        table = {Nr: sized(Nr) for Nr in _sim_sizes(n, cap)}
+        return st.sampled_from(sorted(table)).flatmap(table.__getitem__)
+    return per_n(1, 7, build)
+
+
+def s_simctl(cap=120):
+    def build(n):
+        def sized(Nr):
+            N, intRes = Nr
+            return st.fixed_dictionaries({
+                "model": model_strategy(n), "tilde": st.one_of(st.none(), model_strategy(n)),
+                "q": joint_vec(n), "dq": fvec(n, _F3), "g": GRAVITY, "gtilde": GRAVITY,
+                "Ftipmat": fmat(N, 6, _F10), "thetamatd": fmat(N, n, JOINT), "dthetamatd": fmat(N, n, _F3),
+                "ddthetamatd": fmat(N, n, _F3), "Kp": GAIN, "Ki": GAIN, "Kd": GAIN, "dt": DT,
+                "intRes": st.just(intRes)})
+        table = {Nr: sized(Nr) for Nr in _sim_sizes(n, cap)}
+        return st.sampled_from(sorted(table)).flatmap(table.__getitem__)
+    return per_n(1, 7, build)
+
+
+def s_jointtraj():
+    return per_n(1, 8, lambda n: st.fixed_dictionaries({
+        "thetastart": joint_vec(n), "thetaend": joint_vec(n), "Tf": TF, "N": NSAMPLES, "method": METHOD}))
 
 
 def s_posetraj():
-    return st.fixed_dictionaries({"X": relative_poses(), "Tf": tf_values(), "N": st.integers(2, 12),
-                                  "method": methods()})
+    return st.fixed_dictionaries({"X": RELATIVE_POSES, "Tf": TF, "N": NSAMPLES, "method": METHOD})
 
 
 def s_timescale():
     return st.fixed_dictionaries({
-        "Tf": tf_values(),
-        "frac": st.one_of(G.floats(0.0, 1.0), st.sampled_from([0.0, 1.0, 0.5, 0.3, 1e-9]))})
+        "Tf": TF, "frac": st.one_of(G.floats(0.0, 1.0), st.sampled_from([0.0, 1.0, 0.5, 0.3, 1e-9]))})
+
+
+def s_eulerstep():
+    return per_n(1, 8, lambda n: st.fixed_dictionaries({
+        "q": joint_vec(n), "dq": fvec(n, _F10), "ddq": fvec(n, G.floats(-100.0, 100.0)),
+        "dt": st.one_of(G.log_uniform(1e-4, 1.0), st.sampled_from([0.1, 0.01, 0.0]))}))
 
 
 _T = st.fixed_dictionaries({"T": G.se3s()})
 _V = st.fixed_dictionaries({"V": G.twists()})
 _W = st.fixed_dictionaries({"w": G.rotvecs()})
-_OMG = st.fixed_dictionaries({"omg": nonzero_vec3()})
+_OMG = st.fixed_dictionaries({"omg": NONZERO_VEC3})
 
 ID_FIELDS = ("dq", "ddq", "g", "Ftip")
 
 # name, check, strategy, n_quick, n_thorough
+# cases per clause: (quick, thorough), totals over all shards
+COUNTS = {
+    "NearZero": (200, 12000), "Normalize": (200, 12000), "RotInv": (150, 8000), "VecToso3": (150, 8000),
+    "so3ToVec": (150, 8000), "AxisAng3": (200, 12000), "MatrixExp3": (300, 16000), "MatrixLog3": (300, 16000),
+    "RpToTrans": (150, 8000), "TransToRp": (150, 8000), "TransInv": (200, 12000), "VecTose3": (150, 8000),
+    "se3ToVec": (150, 8000), "Adjoint": (200, 12000), "ScrewToAxis": (150, 8000), "AxisAng6": (250, 12000),
+    "MatrixExp6": (300, 16000), "MatrixLog6": (300, 16000), "ProjectToSO3": (200, 12000),
+    "ProjectToSE3": (200, 12000), "DistanceToSO3": (200, 12000), "DistanceToSE3": (200, 12000),
+    "TestIfSO3": (200, 12000), "TestIfSE3": (200, 12000), "FKinBody": (200, 12000), "FKinSpace": (200, 12000),
+    "JacobianBody": (200, 12000), "JacobianSpace": (200, 12000), "ad": (150, 8000),
+    "InverseDynamics": (120, 4000), "MassMatrix": (100, 3000), "VelQuadraticForces": (100, 4000),
+    "GravityForces": (100, 4000), "EndEffectorForces": (100, 4000), "ForwardDynamics": (100, 3000),
+    "EulerStep": (150, 8000), "InverseDynamicsTrajectory": (80, 2400), "ForwardDynamicsTrajectory": (60, 1600),
+    "CubicTimeScaling": (200, 12000), "QuinticTimeScaling": (200, 12000), "JointTrajectory": (200, 12000),
+    "ScrewTrajectory": (200, 10000), "CartesianTrajectory": (200, 10000), "ComputedTorque": (100, 3000),
+    "SimulateControl": (60, 1600),
+}
+
 _EQ = [
-    ("NearZero", c_NearZero, st.fixed_dictionaries({"z": s_scalar_z()}), 300, 24000),
-    ("Normalize", c_Normalize, st.fixed_dictionaries({"V": nonzero_vec3()}), 300, 24000),
-    ("RotInv", c_RotInv, _T, 200, 16000),
-    ("VecToso3", c_VecToso3, _OMG, 200, 16000),
-    ("so3ToVec", c_so3ToVec, _OMG, 200, 16000),
-    ("AxisAng3", c_AxisAng3, _W, 300, 24000),
-    ("MatrixExp3", c_MatrixExp3, _W, 400, 32000),
-    ("MatrixLog3", c_MatrixLog3, _T, 400, 32000),
-    ("RpToTrans", c_RpToTrans, _T, 200, 16000),
-    ("TransToRp", c_TransToRp, _T, 200, 16000),
-    ("TransInv", c_TransInv, _T, 300, 24000),
-    ("VecTose3", c_VecTose3, st.fixed_dictionaries({"V": G.vec6(1e3)}), 200, 16000),
-    ("se3ToVec", c_se3ToVec, st.fixed_dictionaries({"V": G.vec6(1e3)}), 200, 16000),
-    ("Adjoint", c_Adjoint, _T, 300, 24000),
+    ("NearZero", c_NearZero, st.fixed_dictionaries({"z": s_scalar_z()})),
+    ("Normalize", c_Normalize, st.fixed_dictionaries({"V": NONZERO_VEC3})),
+    ("RotInv", c_RotInv, _T),
+    ("VecToso3", c_VecToso3, _OMG),
+    ("so3ToVec", c_so3ToVec, _OMG),
+    ("AxisAng3", c_AxisAng3, _W),
+    ("MatrixExp3", c_MatrixExp3, _W),
+    ("MatrixLog3", c_MatrixLog3, _T),
+    ("RpToTrans", c_RpToTrans, _T),
+    ("TransToRp", c_TransToRp, _T),
+    ("TransInv", c_TransInv, _T),
+    ("VecTose3", c_VecTose3, st.fixed_dictionaries({"V": G.vec6(1e3)})),
+    ("se3ToVec", c_se3ToVec, st.fixed_dictionaries({"V": G.vec6(1e3)})),
+    ("Adjoint", c_Adjoint, _T),
     ("ScrewToAxis", c_ScrewToAxis,
-     st.fixed_dictionaries({"q": G.positions(10.0), "s": G.unit_vectors(),
-                            "h": st.one_of(G.floats(-2, 2), st.sampled_from([0.0, 0.0, 2.0]))}), 200, 16000),
-    ("AxisAng6", c_AxisAng6, _V, 300, 24000),
-    ("MatrixExp6", c_MatrixExp6, _V, 400, 32000),
-    ("MatrixLog6", c_MatrixLog6, _T, 400, 32000),
-    ("ProjectToSO3", _mat_case("ProjectToSO3"), near_so3(), 300, 24000),
-    ("ProjectToSE3", _mat_case("ProjectToSE3"), near_se3(), 300, 24000),
-    ("DistanceToSO3", _mat_case("DistanceToSO3"), near_so3(), 300, 24000),
-    ("DistanceToSE3", _mat_case("DistanceToSE3"), near_se3(), 300, 24000),
-    ("TestIfSO3", _mat_case("TestIfSO3"), near_so3(), 300, 24000),
-    ("TestIfSE3", _mat_case("TestIfSE3"), near_se3(), 300, 24000),
-    ("FKinBody", c_FKinBody, s_chain_q("Blist", True), 300, 16000),
-    ("FKinSpace", c_FKinSpace, s_chain_q("Slist", True), 300, 16000),
-    ("JacobianBody", c_JacobianBody, s_chain_q("Blist", False), 300, 16000),
-    ("JacobianSpace", c_JacobianSpace, s_chain_q("Slist", False), 300, 16000),
-    ("ad", c_ad, st.fixed_dictionaries({"V": G.vec6(1e3)}), 200, 16000),
-    ("InverseDynamics", c_InverseDynamics, s_dyn(ID_FIELDS), 150, 6000),
-    ("MassMatrix", c_MassMatrix, s_dyn(()), 150, 4000),
-    ("VelQuadraticForces", c_VelQuadraticForces, s_dyn(("dq",)), 150, 6000),
-    ("GravityForces", c_GravityForces, s_dyn(("g",)), 150, 6000),
-    ("EndEffectorForces", c_EndEffectorForces, s_dyn(("Ftip",)), 150, 6000),
-    ("ForwardDynamics", c_ForwardDynamics, s_dyn(("dq", "tau", "g", "Ftip")), 120, 3000),
-    ("EulerStep", c_EulerStep,
-     st.integers(1, 8).flatmap(lambda n: st.fixed_dictionaries({
-         "q": joint_vec(n), "dq": rate_vec(n), "ddq": rate_vec(n, 100.0),
-         "dt": st.one_of(G.log_uniform(1e-4, 1.0), st.sampled_from([0.1, 0.01, 0.0]))})), 200, 16000),
-    ("InverseDynamicsTrajectory", c_InverseDynamicsTrajectory, s_idtraj(), 100, 3000),
-    ("ForwardDynamicsTrajectory", c_ForwardDynamicsTrajectory, s_fdtraj(), 80, 1600),
-    ("CubicTimeScaling", _timescaling("CubicTimeScaling"), s_timescale(), 300, 24000),
-    ("QuinticTimeScaling", _timescaling("QuinticTimeScaling"), s_timescale(), 300, 24000),
-    ("JointTrajectory", c_JointTrajectory, s_jointtraj(), 300, 16000),
-    ("ScrewTrajectory", c_ScrewTrajectory, s_posetraj(), 200, 12000),
-    ("CartesianTrajectory", c_CartesianTrajectory, s_posetraj(), 200, 12000),
+     st.fixed_dictionaries({"q": pos_strategy(10.0), "s": UNIT,
+                            "h": st.one_of(G.floats(-2, 2), st.sampled_from([0.0, 0.0, 2.0]))})),
+    ("AxisAng6", c_AxisAng6, _V),
+    ("MatrixExp6", c_MatrixExp6, _V),
+    ("MatrixLog6", c_MatrixLog6, _T),
+    ("ProjectToSO3", _mat_case("ProjectToSO3"), NEAR_SO3),
+    ("ProjectToSE3", _mat_case("ProjectToSE3"), NEAR_SE3),
+    ("DistanceToSO3", _mat_case("DistanceToSO3"), NEAR_SO3),
+    ("DistanceToSE3", _mat_case("DistanceToSE3"), NEAR_SE3),
+    ("TestIfSO3", _mat_case("TestIfSO3"), NEAR_SO3),
+    ("TestIfSE3", _mat_case("TestIfSE3"), NEAR_SE3),
+    ("FKinBody", c_FKinBody, s_chain_q("Blist", True)),
+    ("FKinSpace", c_FKinSpace, s_chain_q("Slist", True)),
+    ("JacobianBody", c_JacobianBody, s_chain_q("Blist", False)),
+    ("JacobianSpace", c_JacobianSpace, s_chain_q("Slist", False)),
+    ("ad", c_ad, st.fixed_dictionaries({"V": G.vec6(1e3)})),
+    ("InverseDynamics", c_InverseDynamics, s_dyn(ID_FIELDS)),
+    ("MassMatrix", c_MassMatrix, s_dyn(())),
+    ("VelQuadraticForces", c_VelQuadraticForces, s_dyn(("dq",))),
+    ("GravityForces", c_GravityForces, s_dyn(("g",))),
+    ("EndEffectorForces", c_EndEffectorForces, s_dyn(("Ftip",))),
+    ("ForwardDynamics", c_ForwardDynamics, s_dyn(("dq", "tau", "g", "Ftip"))),
+    ("EulerStep", c_EulerStep, s_eulerstep()),
+    ("InverseDynamicsTrajectory", c_InverseDynamicsTrajectory, s_idtraj()),
+    ("ForwardDynamicsTrajectory", c_ForwardDynamicsTrajectory, s_fdtraj()),
+    ("CubicTimeScaling", _timescaling("CubicTimeScaling"), s_timescale()),
+    ("QuinticTimeScaling", _timescaling("QuinticTimeScaling"), s_timescale()),
+    ("JointTrajectory", c_JointTrajectory, s_jointtraj()),
+    ("ScrewTrajectory", c_ScrewTrajectory, s_posetraj()),
+    ("CartesianTrajectory", c_CartesianTrajectory, s_posetraj()),
     ("ComputedTorque", c_ComputedTorque,
-     s_dyn(("dq", "eint", "g", "qd", "dqd", "ddqd", "gains")), 120, 3000),
-    ("SimulateControl", c_SimulateControl, s_simctl(), 80, 1600),
+     s_dyn(("dq", "eint", "g", "qd", "dqd", "ddqd", "gains"))),
+    ("SimulateControl", c_SimulateControl, s_simctl()),
 ]
 
 _IK = [
-    ("ik_success_meets_tol_IKinBody", _ik_success("IKinBody", True), s_ik(), 300, 8000),
-    ("ik_success_meets_tol_IKinSpace", _ik_success("IKinSpace", False), s_ik(), 300, 8000),
-    ("ik_same_solution_IKinBody", _ik_same("IKinBody", True), s_ik(), 300, 8000),
-    ("ik_same_solution_IKinSpace", _ik_same("IKinSpace", False), s_ik(), 300, 8000),
+    ("ik_success_meets_tol_IKinBody", _ik_success("IKinBody", True), s_ik(), 200, 6000),
+    ("ik_success_meets_tol_IKinSpace", _ik_success("IKinSpace", False), s_ik(), 200, 6000),
+    ("ik_same_solution_IKinBody", _ik_same("IKinBody", True), s_ik(), 200, 6000),
+    ("ik_same_solution_IKinSpace", _ik_same("IKinSpace", False), s_ik(), 200, 6000),
 ]
 
-CLAUSES = [Clause("eq_" + n, c, s, nq, nt) for (n, c, s, nq, nt) in _EQ] + \
+CLAUSES = [Clause("eq_" + n, c, s, COUNTS[n][0], COUNTS[n][1]) for (n, c, s) in _EQ] + \
           [Clause(n, c, s, nq, nt) for (n, c, s, nq, nt) in _IK]
 
-_covered = {n for (n, _c, _s, _q, _t) in _EQ} | {"IKinBody", "IKinSpace"}
+_covered = {n for (n, _c, _s) in _EQ} | {"IKinBody", "IKinSpace"}
 if _covered != set(EXPECTED):
     raise HarnessError("clauses do not cover the 47 functions: %s" % sorted(set(EXPECTED) ^ _covered))
 
 
 def warm():
-    """Check the pin and the 47-name intersection, then compile every kernel once."""
+    """Check the pin and the 47-name intersection.  Kernels declared cache=True are compiled here once so that
+    the shards load them from the on-disk cache; the others (FKin*, IKin*, ad, EulerStep, time scalings,
+    JointTrajectory...) cannot be cached and are compiled lazily inside each shard, so compiling them in the
+    parent would only cost time."""
     port, _ = libs()
     T = np.eye(4)
     V = np.array([0.1, 0.2, 0.3, 1.0, 2.0, 3.0])
     S = carr(np.array([[0, 0, 1, 0, 0, 0], [0, 1, 0, -0.5, 0, 0.1]], dtype=float).T)
     q = np.array([0.3, -0.4])
-    port.NearZero(0.5)
-    port.Normalize(V[:3].copy())
     port.AxisAng3(V[:3].copy())
     port.AxisAng6(V.copy())
     port.MatrixLog6(port.MatrixExp6(port.VecTose3(V)))
@@ -1109,24 +1318,8 @@ def warm():
     port.TransToRp(T)
     port.TransInv(T)
     port.Adjoint(T)
-    port.ad(V)
     port.ScrewToAxis(V[3:].copy(), np.array([0.0, 0.0, 1.0]), 0.5)
-    port.DistanceToSO3(np.eye(3))
-    port.DistanceToSE3(T)
     port.TestIfSO3(np.eye(3))
     port.TestIfSE3(T)
-    port.FKinBody(T, S, q)
-    port.FKinSpace(T, S, q)
     port.JacobianBody(S, q)
     port.JacobianSpace(S, q)
-    port.IKinBody(S, T, port.FKinBody(T, S, q), q + 0.01, 0.01, 0.001)
-    port.IKinSpace(S, T, port.FKinSpace(T, S, q), q + 0.01, 0.01, 0.001)
-    port.EulerStep(q, q, q, 0.1)
-    port.CubicTimeScaling(2.0, 0.6)
-    port.QuinticTimeScaling(2.0, 0.6)
-    port.JointTrajectory(q, q + 1, 2.0, 4, 3)
-    port.ScrewTrajectory(T, port.FKinSpace(T, S, q), 2.0, 3, 5)
-    port.CartesianTrajectory(T, port.FKinSpace(T, S, q), 2.0, 3, 5)
-    Ml = carr(np.stack([T, T, T]))
-    Gl = carr(np.stack([np.eye(6), np.eye(6)]))
-    port.ForwardDynamics(q, q, q, np.array([0, 0, -9.8]), np.zeros(6), Ml, Gl, S)
